@@ -407,6 +407,16 @@ def main():
                     scripts.append([int(x) for x in line.split()])
         n_corpus = len(scripts)
         n_gen = P.QUICK_N if tier == "quick" else P.THOROUGH_N
+        # source fingerprint (DESIGN.md 4.5): code that differs from the commit the models were last validated
+        # against is not an alarm, but it gets a deeper quick run straight away
+        import fingerprint
+        fp_commit, fp_changed = fingerprint.changed()
+        fp_scale = 1
+        if fp_changed and tier == "quick":
+            fp_scale = int(os.environ.get("VERIF_FP_SCALE", "4"))
+            n_gen *= fp_scale
+        cov["source_fingerprint"] = {"validated_commit": fp_commit, "changed_files": fp_changed[:40],
+                                     "quick_generation_factor": fp_scale}
         scripts += list(P.gen(rng, n_gen))
         if tier == "thorough" and hasattr(P, "exhaustive"):
             ex = list(P.exhaustive())
@@ -574,18 +584,26 @@ def main():
     }
     os.makedirs(os.path.join(VERIF, "evidence"), exist_ok=True)
     evpath = os.path.join(VERIF, "evidence", pid + ".json")
-    if part and os.path.exists(evpath) and time.time() - os.path.getmtime(evpath) < 3600:
-        # merge into the evidence the main part of this check wrote a moment ago
+    SUMKEYS = ("evaluations", "distinct_nontrivial", "traces_validated_against_impl", "obligations", "discharged",
+               "disagreements", "monitor_failures", "in_coq_crosscheck_cases")
+    if not part:
+        # totals of a check = its main pair plus every further part (tools/props/<id>_<part>.py); the main run
+        # remembers its own counts so that re-running a part replaces that part's share instead of adding to it
+        cov["main_counts"] = {k: cov.get(k, 0) for k in SUMKEYS}
+        cov["main_violations"] = evidence["violations"]
+        cov["main_wall_s"] = evidence["wall_s"]
+    elif os.path.exists(evpath):
         main_ev = json.load(open(evpath))
         mc = main_ev["coverage"]
-        mc.setdefault("parts", {})[part] = cov
-        for k in ("evaluations", "distinct_nontrivial", "traces_validated_against_impl", "obligations", "discharged",
-                  "disagreements", "monitor_failures", "in_coq_crosscheck_cases"):
-            mc[k] = mc.get(k, 0) + cov.get(k, 0)
-        mc["samples"] = mc.get("samples", []) + cov.get("samples", [])[:1]
-        main_ev["wall_s"] = round(main_ev.get("wall_s", 0) + evidence["wall_s"], 2)
-        main_ev["violations"] = max(main_ev.get("violations", 0), evidence["violations"])
-        evidence = main_ev
+        if "main_counts" in mc:
+            cov["part_violations"] = evidence["violations"]
+            cov["part_wall_s"] = evidence["wall_s"]
+            mc.setdefault("parts", {})[part] = cov
+            for k in SUMKEYS:
+                mc[k] = mc["main_counts"].get(k, 0) + sum(pc.get(k, 0) for pc in mc["parts"].values())
+            main_ev["wall_s"] = round(mc.get("main_wall_s", 0) + sum(pc.get("part_wall_s", 0) for pc in mc["parts"].values()), 2)
+            main_ev["violations"] = max([mc.get("main_violations", 0)] + [pc.get("part_violations", 0) for pc in mc["parts"].values()])
+            evidence = main_ev
     with open(evpath, "w") as f:
         json.dump(evidence, f, indent=1)
     for l in verdict_lines:
